@@ -1,5 +1,6 @@
 import RbModel.Sexp
 import RbModel.Ty
+import RbModel.TyCore
 import RbModel.Drv.Num
 /-! Line-protocol handlers for `RbModel.Ty` (requests `ty.*`).
 
@@ -12,7 +13,8 @@ import RbModel.Drv.Num
   `(cond row e)`, `(condEnd row e)`, `(for row id (e..) nextRow id|none)`, `(select row e)`,
   `(case row sel (e..))`, `(dim row id (e..))`; the last argument is the list of units (main first).
 Answer: `ok` or `(err <LintError> <row>)`.
-`(ty.type (t0 .. t25) (arrays..) e)` answers the static type of an expression or `mismatch`. -/
+`(ty.type (t0 .. t25) (arrays..) e)` answers the static type of an expression or `mismatch`.
+`(ty.core (sprogram ..))` answers `(ty true|false)`: `RbModel.TyCore.tyTopB` on the serialised linted tree. -/
 namespace RbModel.Drv.Ty
 open RbModel RbModel.Num RbModel.Ty Gen.TyTables
 
@@ -118,6 +120,10 @@ def handle (cmd : String) (args : List Sexp) : Option String :=
     match typeOf Γ (← expr? deft e) with
     | some t => pure (RbModel.Drv.Num.showTy t)
     | none => pure "mismatch"
+  | "ty.core", [prog] => do
+    -- the typing discipline of Thm/C12Core.lean (`wf_no_type_mismatch`) on the linted tree of a core program
+    let sp ← Src.sprogram? prog
+    pure (if TyCore.tyTopB sp then "(ty true)" else "(ty false)")
   | _, _ => none
 
 end RbModel.Drv.Ty
